@@ -228,4 +228,18 @@ theorem C09_caveat_writeAt_not_at_end_witness :
     rA.1.w.d.content = Caveat.pre.take 5 ++ hdrBytes Caveat.h 0 ++ (Caveat.spec.drop 14).take 1 ++ Caveat.spec.take 14 := by
   decide +kernel
 
+/-- **"If io.Writer is an *os.File opened with O_APPEND, the behavior of the Encoder is not specified"** — what it is:
+the operations the encoder issues do not depend on where the destination puts the bytes, so on an `O_APPEND` file
+(`Dest.runAppend`: every `Write` lands at the end) the seek-rewrite of an `*os.File` (a WriteSeeker) APPENDS the final
+header: the file is the sequence with its placeholder header (data size 0) followed by 14 more bytes — 41 instead of 27
+— while every call reports success. On an ordinary file the same operations give the sequence (`Dest.run`). -/
+theorem C09_caveat_append_mode_witness :
+    let r := encodeChainW noFault Caveat.o (Enc.new Caveat.o .both 0 ⟨[], 0, []⟩) [⟨Caveat.h, 0, [Caveat.m1]⟩]
+    r.2 = (1, true) ∧
+    ((⟨[], 0, []⟩ : Dest).run r.1.w.d.log.reverse).content = Caveat.spec ∧
+    ((⟨[], 0, []⟩ : Dest).runAppend r.1.w.d.log.reverse).content =
+      (hdrBytes Caveat.h 0 ++ Caveat.spec.drop 14) ++ Caveat.spec.take 14 ∧
+    ((⟨[], 0, []⟩ : Dest).runAppend r.1.w.d.log.reverse).content ≠ Caveat.spec := by
+  decide +kernel
+
 end Fit.C09
